@@ -736,6 +736,8 @@ func ruleENTRYTAIL(c *Ctx, r *Report) {
 				r.bad(rule, key, pos, fmt.Sprintf("%s renders %s rather than the expression Parse returned: the tree is altered on this entry point only (e.g. an operator is unwrapped), so the two entry points no longer accept the same queries", t.name, c.key(arg, p.Env)))
 			case !same:
 				r.bad(rule, key, pos, t.name+" does not return the renderer's results unchanged")
+			case !parseSucceeded(p.Atoms, fnName(parse)):
+				r.bad(rule, key+"|unchecked", pos, fmt.Sprintf("%s renders Parse's result on a path on which Parse's error has not been found nil: a query that does not parse is rendered (as the empty filter of a nil expression) instead of being rejected", t.name))
 			default:
 				okN++
 				r.ok(rule, key, pos, "renderer applied to Parse's result; results returned unchanged")
@@ -745,6 +747,16 @@ func ruleENTRYTAIL(c *Ctx, r *Report) {
 			r.bad(rule, t.name+"|no-render-path", c.pos(f.Pos()), t.name+" has no path that renders Parse's result")
 		}
 	}
+}
+
+// parseSucceeded: the path conditions contain "the error result of Parse is nil".
+func parseSucceeded(atoms []Atom, parseName string) bool {
+	for _, a := range atoms {
+		if a.Kind == "nil" && a.Pos && strings.HasSuffix(a.Subj, "#1") && strings.HasPrefix(a.Subj, parseName+"(") {
+			return true
+		}
+	}
+	return false
 }
 
 // CTOR-SHAPE (C03/C06): the general constructor's operator-specific branches.
@@ -1037,10 +1049,17 @@ func (c *Ctx) derefUses(v ssa.Value, depth int) []ssa.Instruction {
 	return out
 }
 
+// kindRestricted: methods of reflect.Value that panic when the value is not of the kind they are defined for.
+var kindRestricted = map[string]bool{"Len": true, "Cap": true, "Index": true, "Int": true, "Uint": true, "Float": true, "Complex": true,
+	"Bool": true, "Bytes": true, "Elem": true, "Field": true, "FieldByName": true, "FieldByIndex": true, "NumField": true, "MapKeys": true,
+	"MapIndex": true, "MapRange": true, "IsNil": true, "Slice": true, "Slice3": true, "Call": true, "NumMethod": false, "Set": true,
+	"SetInt": true, "SetString": true, "SetLen": true, "OverflowInt": true, "OverflowFloat": true, "Pointer": true, "UnsafePointer": true,
+	"Recv": true, "Send": true, "Close": true}
+
 // PANIC-LIB (C13/C01): standard-library calls that panic on a bad argument.
 func rulePANICLIB(c *Ctx, r *Report) {
 	const rule = "PANIC-LIB"
-	r.doc(rule, "reachable calls of strings.Repeat / bytes.Repeat need a provably non-negative count; make with a computed length needs a provably non-negative length")
+	r.doc(rule, "reachable calls of strings.Repeat / bytes.Repeat need a provably non-negative count; make with a computed length needs a provably non-negative length; no kind-restricted method of reflect.Value (Len, Index, Int, Elem, Field, …) is called on a payload; regexp.MustCompile only with a constant pattern; no write into a strings.Builder received by value (copy check panics)")
 	reach := c.reachFrom(append(c.rootsC01(), c.rootsC13()...))
 	n := 0
 	for _, fn := range sortedFuncs(reach) {
@@ -1056,6 +1075,41 @@ func rulePANICLIB(c *Ctx, r *Report) {
 					name := calleeFullName(x)
 					if name == "strings.Repeat" || name == "bytes.Repeat" {
 						arg, what = x.Call.Args[1], name+" count"
+					}
+					if strings.HasPrefix(name, "(reflect.Value).") && kindRestricted[strings.TrimPrefix(name, "(reflect.Value).")] {
+						n++
+						r.bad(rule, fnName(fn)+"|"+name, c.instrPos(in), fmt.Sprintf("%s calls %s, which panics for a value of any other kind than the ones it is defined for; the values that reach it are untyped payloads (any)", fnName(fn), name))
+					}
+					if strings.HasPrefix(name, "(*strings.Builder).") && len(x.Call.Args) > 0 {
+						switch strings.TrimPrefix(name, "(*strings.Builder).") {
+						case "Write", "WriteString", "WriteByte", "WriteRune", "Grow":
+							base := x.Call.Args[0]
+							for {
+								if fa, isFA := base.(*ssa.FieldAddr); isFA {
+									base = fa.X
+									continue
+								}
+								break
+							}
+							if al, isAlloc := base.(*ssa.Alloc); isAlloc && al.Referrers() != nil {
+								for _, ref := range *al.Referrers() {
+									if st, isStore := ref.(*ssa.Store); isStore && st.Addr == al {
+										if prm, isParam := st.Val.(*ssa.Parameter); isParam {
+											n++
+											r.bad(rule, fnName(fn)+"|"+name+"|by-value "+prm.Name(), c.instrPos(in), fmt.Sprintf("%s writes into a strings.Builder that it received by value (inside %s): the Builder detects the copy and panics as soon as the caller has written to its own before, and what is written here never reaches the caller", fnName(fn), prm.Name()))
+										}
+									}
+								}
+							}
+						}
+					}
+					if name == "regexp.MustCompile" || name == "regexp.MustCompilePOSIX" {
+						n++
+						if _, isConst := c.resolve(x.Call.Args[0], nil).(*ssa.Const); isConst {
+							r.ok(rule, fnName(fn)+"|"+name, c.instrPos(in), "constant pattern")
+						} else {
+							r.bad(rule, fnName(fn)+"|"+name, c.instrPos(in), fmt.Sprintf("%s compiles a computed pattern with %s, which panics if the pattern is not a valid regular expression", fnName(fn), name))
+						}
 					}
 				case *ssa.MakeSlice:
 					if _, isC := x.Len.(*ssa.Const); !isC {
@@ -1175,7 +1229,7 @@ func ruleJSONKINDS(c *Ctx, r *Report) {
 // REC-ONCE (C01): a recursive function does not visit the same sub-term twice on one path.
 func ruleRECONCE(c *Ctx, r *Report) {
 	const rule = "REC-ONCE"
-	r.doc(rule, "in every self-recursive library function, no path makes two recursive calls on the same sub-term: visiting a child twice per level makes the running time exponential in the depth of the tree")
+	r.doc(rule, "in every self-recursive library function, no path makes two recursive calls on the same sub-term: visiting a child twice per level makes the running time exponential in the depth of the tree; likewise the JSON encoder encodes, and every printer reachable from String / GoString prints, each child at most once per path")
 	n := 0
 	for _, f := range c.Funcs {
 		if !inLib(f) || !c.calls(f, f) {
@@ -1230,6 +1284,55 @@ func ruleRECONCE(c *Ctx, r *Report) {
 			r.bad(rule, fnName(enc)+"|json.Marshal|"+k, pos, fmt.Sprintf("%s encodes the same child (%s) twice on one path: json.Marshal re-enters MarshalJSON, so the work doubles at every level and encoding takes time exponential in the nesting depth", fnName(enc), k))
 		}
 	}
+	// the printers re-enter themselves through fmt (an *Expression operand is printed by its String / GoString):
+	// the same child handed to fmt twice on one path doubles the work at every level
+	nP := 0
+	for _, root := range []*ssa.Function{c.method(pkgExpr, "Expression", "String"), c.method(pkgExpr, "Expression", "GoString")} {
+		if root == nil {
+			continue
+		}
+		for _, f := range sortedFuncs(c.reachFrom([]*ssa.Function{root})) {
+			if fnPkgPath(f) != pkgExpr || len(f.Blocks) == 0 {
+				continue
+			}
+			paths, complete := c.enumPaths(f, 5000)
+			if !complete {
+				continue
+			}
+			bad := map[string]string{}
+			printed := false
+			for _, p := range paths {
+				seen := map[string]int{}
+				for _, pc := range p.Calls {
+					if pc.Call.Parent() != f || !strings.HasPrefix(calleeFullName(pc.Call), "fmt.") || !pc.Call.Call.Signature().Variadic() {
+						continue
+					}
+					for _, op := range c.flattenArgs(pc.Call, nil) {
+						k := c.key(op, nil)
+						if !(strings.HasSuffix(k, ".Left") || strings.HasSuffix(k, ".Right") || strings.HasSuffix(k, ".Min") || strings.HasSuffix(k, ".Max")) {
+							continue
+						}
+						printed = true
+						seen[k]++
+						if seen[k] == 2 {
+							bad[k] = c.instrPos(pc.Call)
+						}
+					}
+				}
+			}
+			if !printed {
+				continue
+			}
+			nP++
+			if len(bad) == 0 {
+				r.ok(rule, fnName(f)+"|fmt", c.pos(f.Pos()), "each child printed at most once per path")
+			}
+			for k, pos := range bad {
+				r.bad(rule, fnName(f)+"|fmt|"+k, pos, fmt.Sprintf("%s prints the same child (%s) twice on one path: fmt re-enters String/GoString for it, so the work doubles at every level and printing takes time exponential in the nesting depth", fnName(f), k))
+			}
+		}
+	}
+	_ = nP
 }
 
 // PARSE-INPUT (C05/C06/C08/C09/C16): the query text reaches the lexer untouched and nothing but the
